@@ -104,7 +104,7 @@ Section Actions.
 
   (** * Side conditions on the generated facts *)
   Definition head_ok : Prop :=
-    a_head_arg a None = 1 /\ (forall k, 0 < k -> a_head_arg a (Some k) = k) /\
+    a_head_arg a None = 1 /\ (forall k, 0 <= k -> a_head_arg a (Some k) = k) /\
     a_head_scalar a None = true /\ (forall k, a_head_scalar a (Some k) = false) /\ a_head_index a = 0.
   Definition first_ok : Prop := a_first_arg a = None.
   Definition count_ok : bool :=
@@ -144,12 +144,11 @@ Section Actions.
     (** ** head / head(n) / first *)
     Theorem head_correct d ics input n :
       head_ok -> cols input = ics -> wf_frame input -> InvR c d ics ->
-      n <> Some O ->
       head_model n d input = head_spec n (collect d input).
     Proof.
-      intros (H1 & H2 & H3 & H4 & H5) Hics Hwf HI Hn.
+      intros (H1 & H2 & H3 & H4 & H5) Hics Hwf HI.
       unfold head_model. destruct n as [k|]; simpl.
-      - rewrite H4. rewrite H2 by (destruct k; [congruence | lia]).
+      - rewrite H4. rewrite H2 by lia.
         rewrite Nat2Z.id. f_equal.
         apply (limit_correct d ics input k Hics Hwf HI).
       - rewrite H3, H1, H5. change (Z.to_nat 1) with 1%nat. change (Z.to_nat 0) with 0%nat. f_equal.
@@ -162,7 +161,7 @@ Section Actions.
       first_model d input = HRow (hd_error (collect d input)).
     Proof.
       intros Hh Hf Hics Hwf HI. unfold first_model. rewrite Hf. simpl.
-      apply (head_correct d ics input None Hh Hics Hwf HI). discriminate.
+      apply (head_correct d ics input None Hh Hics Hwf HI).
     Qed.
 
     (** head(0): the generated [n or 1] turns 0 into 1 *)
@@ -189,13 +188,13 @@ Section Actions.
       destruct (a_isempty_item a) as [e nm] eqn:Eit.
       assert (Hop : op_ok c d ics (OSelect [(e, nm)]) = true) by reflexivity.
       destruct (step_correct c Hcfg Hlim d ics input (OSelect [(e, nm)]) Hics Hwf HI Hop) as [He HI'].
-      rewrite (head_correct _ ics input None Hh Hics Hwf HI') by discriminate.
+      rewrite (head_correct _ ics input None Hh Hics Hwf HI').
       unfold head_spec, collect. rewrite He. cbn [spec_step rows].
       generalize (rows (eval_df d input)) as l. intros [|r l]; reflexivity.
     Qed.
 
     (** ** show *)
-    Hypothesis Hren : ren_spec (a_rename a).
+    Hypothesis Hid : forall fs, NoDup fs -> ufn (a_rename a) fs = fs.
 
     Lemma invr_wrap d ics : InvR c d ics -> InvR c (wrap d) ics.
     Proof.
@@ -227,11 +226,8 @@ Section Actions.
                   end).
       { intros d' HI' Hc He. cbv zeta. rewrite Hs, Nat2Z.id.
         rewrite (proj1 (limit_correct d' ics input n Hics Hwf HI')), He, Hc.
-        rewrite (ufn_id _ Hren _ Hnd).
-        assert (Hb : nodupb (columns d) = true).
-        { clear -Hnd. induction Hnd as [|x l Hx Hnd IH]; simpl; [reflexivity|].
-          rewrite IH, andb_true_r. apply negb_true_iff.
-          destruct (mem x l) eqn:Em; [|reflexivity]. apply mem_In in Em. contradiction. }
+        rewrite (Hid _ Hnd).
+        assert (Hb : nodupb (columns d) = true) by (apply nodupb_complete; exact Hnd).
         rewrite Hb. destruct (firstn n (collect d input)); reflexivity. }
       unfold show_model. destruct (a_show_wraps a).
       - apply E.
@@ -273,37 +269,179 @@ Section Actions.
     Qed.
 
     (** ** all actions of one DataFrame, together *)
+    (** with the header taken from the statement's columns, show prints names also when it prints no row *)
+    Corollary show_all d ics input n :
+      show_ok -> a_show_header_needs_row a = false -> cols input = ics -> wf_frame input -> InvR c d ics ->
+      show_model n d input = show_spec n (columns d) (collect d input).
+    Proof.
+      intros Hs Hh Hics Hwf HI. rewrite (show_correct d ics input n Hs Hics Hwf HI), Hh.
+      unfold show_spec. destruct (firstn n (collect d input)); reflexivity.
+    Qed.
+
     Definition agree_partial (d : df) (input : frame) (n : nat) : Prop :=
       let l := collect d input in
       count_model d input = Some (Z.of_nat (List.length l)) /\
       isempty_model d input = Nat.eqb (List.length l) 0 /\
       head_model None d input = HRow (hd_error l) /\
       first_model d input = HRow (hd_error l) /\
-      (negb (Nat.eqb n 0) = true -> head_model (Some n) d input = HList (firstn n l)) /\
+      head_model (Some n) d input = HList (firstn n l) /\
       collect (limit_df n d) input = firstn n l /\
-      (negb (Nat.eqb (List.length (firstn n l)) 0) = true -> show_model n d input = STable (columns d) (firstn n l)) /\
-      (forall names body, show_model n d input = STable names body -> NoDup names).
+      show_model n d input = STable (columns d) (firstn n l).
 
     Theorem all_actions ops input n :
-      head_ok -> first_ok -> count_ok = true -> isempty_ok = true -> show_ok ->
+      head_ok -> first_ok -> count_ok = true -> isempty_ok = true -> show_ok -> a_show_header_needs_row a = false ->
       wf_frame input -> NoDup (cols input) ->
       ops_ok c (init_df (cols input)) (cols input) ops = true ->
       agree_partial (compile c ops (init_df (cols input))) input n.
     Proof.
-      intros Hh Hf Hc Hi Hs Hwf Hnd Hok.
+      intros Hh Hf Hc Hi Hs Hhd Hwf Hnd Hok.
       pose proof (compile_inv ops _ _ (init_inv c (cols input) Hnd) Hok) as HI.
       set (d := compile c ops (init_df (cols input))) in *.
       unfold agree_partial. cbv zeta.
       split; [apply count_correct; exact Hc|].
       split; [apply (isempty_correct d (cols input)); auto|].
-      split; [apply (head_correct d (cols input) input None); auto; discriminate|].
+      split; [apply (head_correct d (cols input) input None); auto|].
       split; [apply (first_correct d (cols input)); auto|].
-      split.
-      { intro Hn. apply (head_correct d (cols input) input (Some n)); auto.
-        intro E. inversion E; subst. discriminate. }
+      split; [apply (head_correct d (cols input) input (Some n)); auto|].
       split; [apply (limit_correct d (cols input)); auto|].
-      split; [intro Hne; apply (show_rows d (cols input)); auto|].
-      intros names body. apply show_names_nodup.
+      apply (show_all d (cols input)); auto.
+    Qed.
+
+    (** * Every program, also outside C01's domain (select lists that repeat a name, any ORDER BY keys):
+        limit -- and with it head(n) and show(n) -- is written into the open block without a wrap, and
+        [body_limit] holds for every block; count freezes whatever the block is.  What is NOT covered here is
+        isEmpty (its select(lit) may be written into a block the invariant says nothing about). *)
+    Definition limit_in_place_ok : bool :=
+      forallb (fun l => negb (wrap_needed c l (new_kind c (OLimit 0) l))) (reach c) &&
+      forallb (fun n => negb (opk_eqb (kind_of c n) INIT)) all_names.
+
+    (** reachable: a created DataFrame (INIT, pass-through over duplicate-free input columns) or any state
+        whose tag is not INIT *)
+    Definition Started (d : df) (ics : list string) : Prop :=
+      In (Chain.last d) (reach c) /\ (Chain.last d = INIT -> d = init_df ics /\ NoDup ics).
+
+    Lemma new_kind_reach o l : In l (reach c) -> In (new_kind c o l) (reach c).
+    Proof.
+      intro Hl. unfold new_kind. destruct (opk_eqb (kind_of c (name_of o)) NO_OP); [exact Hl|].
+      apply reach_kind.
+    Qed.
+
+    Lemma pre_init_last d : In (Chain.last d) (reach c) ->
+      In (Chain.last (pre_init c d)) (reach c) /\ Chain.last (pre_init c d) <> INIT.
+    Proof.
+      intro Hr. unfold pre_init. destruct (opk_eqb (Chain.last d) INIT) eqn:E.
+      - simpl. split; [unfold reach; simpl; tauto | discriminate].
+      - split; [exact Hr|]. intro H. rewrite H in E. discriminate.
+    Qed.
+
+    Lemma started_step d ics o : limit_in_place_ok = true -> Started d ics -> Started (step c d o) ics.
+    Proof.
+      intros Hok [Hr _]. destruct (pre_init_last d Hr) as [Hr0 Hne].
+      unfold Started, step; cbn [Chain.last]. split; [apply new_kind_reach; exact Hr0|].
+      intro H. exfalso. unfold new_kind in H.
+      destruct (opk_eqb (kind_of c (name_of o)) NO_OP); [exact (Hne H)|].
+      unfold limit_in_place_ok in Hok. apply andb_true_iff in Hok. destruct Hok as [_ Hk].
+      rewrite forallb_forall in Hk.
+      assert (Hin : In (name_of o) all_names) by (destruct o; simpl; tauto).
+      specialize (Hk _ Hin). rewrite H in Hk. discriminate.
+    Qed.
+
+    Lemma started_compile ops : forall d ics, limit_in_place_ok = true -> Started d ics -> Started (compile c ops d) ics.
+    Proof.
+      induction ops as [|o ops IH]; intros d ics Hok Hs; simpl; [exact Hs|].
+      apply IH; [exact Hok | apply started_step; assumption].
+    Qed.
+
+    Lemma started_init ics : NoDup ics -> Started (init_df ics) ics.
+    Proof. intro H. split; [unfold reach; simpl; tauto | intros _; split; [reflexivity | exact H]]. Qed.
+
+    Theorem limit_any d ics input n :
+      limit_in_place_ok = true -> Started d ics -> cols input = ics -> wf_frame input ->
+      collect (limit_df n d) input = firstn n (collect d input) /\ columns (limit_df n d) = columns d.
+    Proof.
+      intros Hok [Hr Hinit] Hics Hwf.
+      assert (H0 : eval_df (pre_init c d) input = eval_df d input /\ columns (pre_init c d) = columns d).
+      { unfold pre_init. destruct (opk_eqb (Chain.last d) INIT) eqn:E; [|split; reflexivity].
+        destruct (Chain.last d) eqn:El; try discriminate.
+        destruct (Hinit eq_refl) as [-> Hnd].
+        destruct (init_wraps c); [|split; reflexivity].
+        split.
+        - unfold eval_df; simpl. apply wrap_eval. simpl. rewrite out_cols_passthrough. exact Hnd.
+        - unfold columns, wrap, set_last; simpl. rewrite !out_cols_passthrough. reflexivity. }
+      destruct H0 as [He0 Hc0].
+      destruct (pre_init_last d Hr) as [Hr0 _].
+      unfold limit_df, step. set (d0 := pre_init c d) in *.
+      assert (Hnw : pre_wrap c (OLimit n) d0 = d0).
+      { unfold pre_wrap. unfold limit_in_place_ok in Hok. apply andb_true_iff in Hok. destruct Hok as [Hw _].
+        rewrite forallb_forall in Hw. specialize (Hw _ Hr0). apply negb_true_iff in Hw.
+        change (new_kind c (OLimit n) (Chain.last d0)) with (new_kind c (OLimit 0) (Chain.last d0)).
+        rewrite Hw. reflexivity. }
+      rewrite Hnw. split.
+      - unfold collect.
+        change (eval_df {| done := done d0; cur := body c (OLimit n) (cur d0); Chain.last := new_kind c (OLimit n) (Chain.last d0) |} input)
+          with (eval_block (body c (OLimit n) (cur d0)) (source d0 input)).
+        rewrite (body_limit c Hlim). change (eval_block (cur d0) (source d0 input)) with (eval_df d0 input).
+        rewrite He0. reflexivity.
+      - unfold columns; cbn [cur]. rewrite <- Hc0. unfold columns. destruct (b_limit (cur d0)); reflexivity.
+    Qed.
+
+    Theorem head_any d ics input n :
+      head_ok -> limit_in_place_ok = true -> Started d ics -> cols input = ics -> wf_frame input ->
+      head_model n d input = head_spec n (collect d input).
+    Proof.
+      intros (H1 & H2 & H3 & H4 & H5) Hok Hs Hics Hwf.
+      unfold head_model. destruct n as [k|]; simpl.
+      - rewrite H4. rewrite H2 by lia. rewrite Nat2Z.id. f_equal.
+        apply (limit_any d ics input k Hok Hs Hics Hwf).
+      - rewrite H3, H1, H5. change (Z.to_nat 1) with 1%nat. change (Z.to_nat 0) with 0%nat. f_equal.
+        rewrite (proj1 (limit_any d ics input 1%nat Hok Hs Hics Hwf)).
+        destruct (collect d input); reflexivity.
+    Qed.
+
+    (** show on every state, given a header function that never repeats a name: the first n rows of collect()
+        under the (possibly index-suffixed) column names *)
+    Theorem show_any d ics input n :
+      show_ok -> a_show_wraps a = false -> a_show_header_needs_row a = false ->
+      (forall fs, NoDup (ufn (a_rename a) fs)) ->
+      limit_in_place_ok = true -> Started d ics -> cols input = ics -> wf_frame input ->
+      show_model n d input = STable (ufn (a_rename a) (columns d)) (firstn n (collect d input)).
+    Proof.
+      intros Hs Hw Hh Hnd Hok Hst Hics Hwf.
+      unfold show_model. rewrite Hw, Hh, Hs, Nat2Z.id.
+      rewrite (proj1 (limit_any d ics input n Hok Hst Hics Hwf)).
+      rewrite (nodupb_complete _ (Hnd (columns d))).
+      destruct (firstn n (collect d input)); reflexivity.
+    Qed.
+
+    Definition agree_any (d : df) (input : frame) (n : nat) : Prop :=
+      let l := collect d input in
+      count_model d input = Some (Z.of_nat (List.length l)) /\
+      head_model None d input = HRow (hd_error l) /\
+      first_model d input = HRow (hd_error l) /\
+      head_model (Some n) d input = HList (firstn n l) /\
+      collect (limit_df n d) input = firstn n l /\
+      show_model n d input = STable (ufn (a_rename a) (columns d)) (firstn n l) /\
+      NoDup (ufn (a_rename a) (columns d)) /\
+      Forall2 (fun f o => o = f \/ exists k, o = suffixed f k) (columns d) (ufn (a_rename a) (columns d)).
+
+    Theorem all_actions_any ops input n :
+      head_ok -> first_ok -> count_ok = true -> show_ok ->
+      a_show_wraps a = false -> a_show_header_needs_row a = false -> ren_fresh_spec (a_rename a) ->
+      limit_in_place_ok = true ->
+      wf_frame input -> NoDup (cols input) ->
+      agree_any (compile c ops (init_df (cols input))) input n.
+    Proof.
+      intros Hh Hf Hc Hs Hw Hhd Hren Hok Hwf Hnd.
+      pose proof (started_compile ops _ _ Hok (started_init _ Hnd)) as Hst.
+      set (d := compile c ops (init_df (cols input))) in *.
+      unfold agree_any. cbv zeta.
+      split; [apply count_correct; exact Hc|].
+      split; [apply (head_any d (cols input) input None); auto|].
+      split; [unfold first_model; rewrite Hf; apply (head_any d (cols input) input None); auto|].
+      split; [apply (head_any d (cols input) input (Some n)); auto|].
+      split; [apply (limit_any d (cols input)); auto|].
+      split; [apply (show_any d (cols input)); auto; intro fs; apply ufn_nodup_total; exact Hren|].
+      split; [apply ufn_nodup_total; exact Hren | apply ufn_shape_f; exact Hren].
     Qed.
   End WithC01.
 End Actions.
